@@ -1100,11 +1100,39 @@ def cli_profile_format(ctx):
                 rc = p_c18.run_cli(argv + [b], key)
                 files = files_of(ET.canon_files(ET.list_real_files(b))) if rc == ['exit', 0] else None
                 vr = p_c18.run_cli(['verify', b], key) if files is not None else None
+                after = None
+                if files is not None and vr == ['exit', 0]:
+                    # a new file next to a sub-Manifest (compressed or not), then update with the same options: one file per logical Manifest
+                    mds = sorted(os.path.dirname(p) for p in files if os.path.basename(p).startswith('Manifest') and os.path.dirname(p))
+                    if mds:
+                        md = r.choice(mds)
+                        with open(os.path.join(b, md, 'added'), 'wb') as f:
+                            f.write(b'x' * r.choice([1, 200]))
+                        up = r.choice(['', md])
+                        rc2 = p_c18.run_cli(['update'] + argv[1:] + [os.path.join(b, up) if up else b], key)
+                        files2 = files_of(ET.canon_files(ET.list_real_files(b)))
+                        after = [md, up, rc2, p_c18.run_cli(['verify', b], key) if rc2 == ['exit', 0] else None, files2]
             finally:
                 sc.cleanup(b, s)
             if files is None:
                 continue
             n += 1
+            if after is not None:
+                md, up, rc2, vr2, files2 = after
+                per = {}
+                for p in files2:
+                    if os.path.basename(p).startswith('Manifest') and OX.parse(p, files2[p]) is not None:
+                        per.setdefault(os.path.dirname(p), []).append(p)
+                multi = {d: ps for d, ps in per.items() if len(ps) > 1}
+                if rc2 == ['exit', 0] and (multi or vr2 != ['exit', 0]):
+                    ctx.violation('spec', f'gemato update {" ".join(argv[1:])} {up or "<top>"} after adding {md}/added: ' +
+                                  (f'several files for one logical Manifest: {sorted(multi.values())[:3]}' if multi else f'the tree does not verify: {vr2}'),
+                                  {'meta': meta_of(c), 'argv': argv, 'added': md + '/added', 'update_path': up, 'tree': PT.describe(c.tree)})
+                    continue
+                elif rc2 != ['exit', 0] and not (rc2[0] == 'exc' and known_finding(ctx, 'C13', c, 'internal', rc2)):
+                    ctx.violation('spec', f'gemato update {" ".join(argv[1:])} {up or "<top>"} after adding {md}/added gives {rc2}',
+                                  {'meta': meta_of(c), 'argv': argv, 'added': md + '/added', 'update_path': up, 'tree': PT.describe(c.tree)})
+                    continue
             c.opts = (None, None, ov.get('watermark'), fmt, prof, None, None, True)
             replay = {'meta': meta_of(c), 'argv': argv, 'tree': PT.describe(c.tree)}
             probs = [p for p in p_repo.check_created(c, files, prof, ov) if 'compressed' in p or 'Manifest files in' in p or 'unreadable' in p]
